@@ -16,3 +16,48 @@ pub fn insertion_sort<T: Ord>(v: &mut [T]) {
         i += 1;
     }
 }
+
+/// Model of `Vec::with_capacity`: CBMC mis-handles the dangling pointer of a zero-capacity
+/// vector when the requested capacity is not a literal (spurious NULL dereference on the next
+/// push; minimal reproduction in probe.rs). Always reserving at least one slot avoids the
+/// dangling representation; `capacity()` is then >= the request, which `with_capacity` allows.
+pub fn vec_with_capacity<T>(n: usize) -> Vec<T> {
+    let mut v = Vec::new();
+    v.reserve_exact(if n == 0 { 1 } else { n });
+    v
+}
+
+/// Contract of `<[T]>::sort_unstable_by`: a permutation ordered by `compare`.
+pub fn insertion_sort_by<T, F>(v: &mut [T], mut compare: F)
+where
+    F: FnMut(&T, &T) -> std::cmp::Ordering,
+{
+    let n = v.len();
+    let mut i = 1;
+    while i < n {
+        let mut j = i;
+        while j > 0 && compare(&v[j - 1], &v[j]) == std::cmp::Ordering::Greater {
+            v.swap(j - 1, j);
+            j -= 1;
+        }
+        i += 1;
+    }
+}
+
+/// Model of `core::slice::sort::unstable::sort`, the routine behind `sort_unstable`,
+/// `sort_unstable_by` and `sort_unstable_by_key`: insertion sort by `is_less`.
+pub fn unstable_sort_model<T, F>(v: &mut [T], is_less: &mut F)
+where
+    F: FnMut(&T, &T) -> bool,
+{
+    let n = v.len();
+    let mut i = 1;
+    while i < n {
+        let mut j = i;
+        while j > 0 && is_less(&v[j], &v[j - 1]) {
+            v.swap(j - 1, j);
+            j -= 1;
+        }
+        i += 1;
+    }
+}
